@@ -11,6 +11,6 @@ for d in $(ls -d $OUT/r* 2>/dev/null | sort); do
   python3 - $P-r$n <<'PY'
 import json,sys
 f='/verif/refactorings/%s/meta.json'%sys.argv[1]
-m=json.load(open(f)); m['origin']='round 4: secondary code'; json.dump(m,open(f,'w'),indent=1)
+m=json.load(open(f)); m['origin']=__import__('os').environ.get('ORIGIN','round 4: secondary code'); json.dump(m,open(f,'w'),indent=1)
 PY
 done
